@@ -175,6 +175,65 @@ def roundTripDomain : Frame → Bool
   | .handshakeDone => true
   | .immediateAck => true
 
+/-! ### packet headers (RFC 9000 §17.2, §17.3; RFC 9369 §3.2) -/
+
+def beSpec (b : Bytes) : Nat := b.foldl (fun acc x => acc * 256 + x.toNat) 0
+
+structure SpecLong where
+  ptype : Nat        -- 1 Initial, 2 Retry, 3 Handshake, 4 0-RTT (protocol.PacketType numbering)
+  version : Nat
+  dcid : Bytes
+  scid : Bytes
+  token : Bytes
+  length : Nat
+  hdrLen : Nat       -- bytes up to and including the Length field (whole packet for Retry)
+  pnLen : Nat
+deriving Repr
+
+/-- a well-formed QUIC v1 / v2 long header, read as the RFCs lay it out; `none` if truncated,
+    not a long header, fixed bit clear, unknown version or a connection ID longer than 20 -/
+def specLongHeader (b : Bytes) : Option SpecLong :=
+  match b with
+  | [] => none
+  | f :: _ =>
+    let f := f.toNat
+    if f / 128 % 2 = 0 ∨ f / 64 % 2 = 0 ∨ b.length < 7 then none
+    else
+      let version := beSpec ((b.drop 1).take 4)
+      if version ≠ 1 ∧ version ≠ 0x6b3343cf then none
+      else
+        let dl := (b.getD 5 0).toNat
+        if dl > 20 ∨ b.length < 6 + dl + 1 then none
+        else
+          let sl := (b.getD (6 + dl) 0).toNat
+          if sl > 20 ∨ b.length < 7 + dl + sl then none
+          else
+            let dcid := (b.drop 6).take dl
+            let scid := (b.drop (7 + dl)).take sl
+            let rest := b.drop (7 + dl + sl)
+            let bits := f / 16 % 4
+            -- RFC 9000 Table 5: 0 Initial, 1 0-RTT, 2 Handshake, 3 Retry; RFC 9369: 1 Initial, 2 0-RTT, 3 Handshake, 0 Retry
+            let ptype := if version = 1 then [1, 4, 3, 2].getD bits 0 else [2, 1, 4, 3].getD bits 0
+            if ptype = 2 then
+              if rest.length ≤ 16 then none
+              else some { ptype := 2, version := version, dcid := dcid, scid := scid, token := rest.take (rest.length - 16),
+                          length := 0, hdrLen := b.length, pnLen := 0 }
+            else
+              let tokR : Option (Bytes × Bytes) :=
+                if ptype = 1 then
+                  match takeSpec rest with
+                  | some (tl, r) => if tl ≤ r.length then some (r.take tl, r.drop tl) else none
+                  | none => none
+                else some ([], rest)
+              match tokR with
+              | none => none
+              | some (tok, r) =>
+                match specVarint r with
+                | none => none
+                | some (len, n) =>
+                  some { ptype := ptype, version := version, dcid := dcid, scid := scid, token := tok, length := len,
+                         hdrLen := b.length - r.length + n, pnLen := f % 4 + 1 }
+
 /-! ### transport parameters (§18.2) -/
 
 /-- the (id, value) sequence of §18; `none` when the framing itself is broken -/
